@@ -51,8 +51,8 @@ RejQt == {<<"qt", <<"iri", "b/", "y">>, <<"iri", "a/", "x">>, Bad>>,
           <<"qt", <<"iri", "c/", "z">>, Bad, <<"iri", "a/", "x">>>>,
           <<"qt", <<"iri", "b/", "y">>, TypedLit("1", "d:a"), <<"iri", "a/", "x">>>>,
           <<"qt", <<"iri", "c/", "z">>, <<"iri", "a/", "x">>, <<"qt", <<"iri", "b/", "w">>, <<"iri", "a/", "x">>, Bad>>>>}
-RejS == Iris({"a/", "b/"}, {"x", "y"}) \cup {Bad, End} \cup RejQt
-RejP == Iris({"a/"}, {"x", "y"}) \cup {Bad, End}
+RejS == Iris({"a/", "b/"}, {"x", "y"}) \cup {Bad, End, Bn("b1"), PlainLit("l")} \cup RejQt     \* terms that use no table at all: the
+RejP == Iris({"a/"}, {"x", "y"}) \cup {Bad, End, Bn("b1")}                                      \* rejected row leaves only rep behind
 RejO == Iris({"a/", "b/"}, {"x"}) \cup {TypedLit("1", "d:a"), PlainLit("l"), Bad, End} \cup RejQt
 RejG == {DG, <<"iri", "a/", "x">>, <<"iri", "b/", "y">>, Bad, End, TypedLit("1", "d:a")}
 
@@ -109,6 +109,10 @@ C18Qt6 == {<<"qt", I("a/", "x"), I("b#", "x"), I("c/", "x")>>, <<"qt", I("d#", "
 C18S6 == C18Iri6 \cup C18Qt6
 C18O6 == C18Iri6 \cup C18Qt6
 C18Dt6 == {TypedLit("1", "d:a"), TypedLit("1", "d:b"), TypedLit("1", "d:c"), TypedLit("1", "d:d"), TypedLit("1", "d:e"), TypedLit("1", "d:f"), Bn("b1")}
+
+\* small refusal slices for the state-graph comparison (every reachable state x every call, refusals included)
+C18IriS == Iris({"a/", "b#", ""}, {"x"}) \cup {<<"iri", "a/", "y">>}
+C18DtS == {TypedLit("1", "d:a"), TypedLit("1", "d:b"), TypedLit("2", "d:a"), Bn("b1")}
 
 NsSmall == {<<"ex", "a/", "">>, <<"", "b#", "">>, <<"n", "", "x">>}
 =============================================================================
